@@ -574,6 +574,51 @@ theorem hop_frame_ben (km : KindMap) (g : Graph) (ke ka kb : Bool)
       cases ke <;> cases ka <;> cases kb <;> rfl
     rw [hp, this, ← hv]; rfl
 
+/-- a CTE-free query with a LIMIT literal: the body's rows cut to the first k -/
+theorem evalQuery_lim (E : EEnv) (body : SetExpr) (k : Option Nat) :
+    evalQuery E (.mk false [] body [] none (k.map S1.natLitS)) =
+      (do let r ← evalSetExpr E body; pure (⟨r.1, (cutN none k r.2).map (·.1)⟩ : Table)) := by
+  rw [evalQuery, evalCtes]
+  simp only [ebind_ok, evalOpt, epure_ok, evalOrderKeys, mapE_pure, orderRows_nokeys]
+  congr 1
+  funext r
+  rw [evalOpt_nat]
+  simp only [ebind_ok]
+  have := cutRows_nat (α := List Val × Option EEnv) none k r.2
+  simp only [Option.map_none] at this
+  rw [this]
+  rfl
+
+/-- the frame `s0` of a hop with a frame-level LIMIT (lowering LimitPushdown): the kept bindings of the first k FROM rows that pass WHERE -/
+theorem hop_frame_lim (km : KindMap) (g : Graph) (ke ka kb : Bool) (kf : Option Nat)
+    {T : Type} (ts : List T) (lv : T → Level) (eOf : T → EdgeRec) (aOf bOf : T → NodeRec) (frm : List FromClause)
+    (hfrom : BenignT (evalFromClauses (E0 (encode km g)) [[]] frm) (ts.map lv))
+    (hb : ∀ t ∈ ts, findBinding "e0" (lv t) = some (eB km (eOf t)) ∧ findBinding "n0" (lv t) = some (nB "n0" km (aOf t)) ∧
+      findBinding "n1" (lv t) = some (nB "n1" km (bOf t)))
+    (wh : Option Expr) (pw : T → Bool) (hwh : ∀ t ∈ ts, BenignT (whTest (E0 (encode km g)) wh (lv t)) (pw t)) :
+    BenignT (evalQuery (E0 (encode km g)) (.mk false [] (.select false (S2.frameProj ke ka kb) frm wh [] none) [] none (kf.map S1.natLitS)))
+      (⟨keptCols ke ka kb, (cutN none kf (ts.filter pw)).map (fun t => keptVals km ke ka kb (eOf t) (aOf t) (bOf t))⟩ : Table) := by
+  have h0 := hop_frame_ben km g ke ka kb ts lv eOf aOf bOf frm hfrom hb wh pw hwh
+  rw [evalQuery_simple] at h0
+  rw [evalQuery_lim]
+  rcases h0 with h0 | ⟨w, h0⟩
+  · left
+    obtain ⟨r, hr, hp⟩ := ebind_eq_ok h0
+    rw [hr]
+    simp only [ebind_ok, epure_ok, Except.ok.injEq, Table.mk.injEq] at hp ⊢
+    obtain ⟨h1, h2⟩ := hp
+    refine ⟨h1, ?_⟩
+    cases kf with
+    | none => simpa [cutN] using h2
+    | some k =>
+      simp only [cutN]
+      rw [List.map_take, List.map_take, h2]
+  · right
+    refine ⟨w, ?_⟩
+    cases hb' : evalSetExpr (E0 (encode km g)) (.select false (S2.frameProj ke ka kb) frm wh [] none) with
+    | error e => rw [hb'] at h0; simp only [bind, Except.bind] at h0 ⊢; exact h0
+    | ok r => rw [hb'] at h0; simp only [ebind_ok, epure_ok] at h0; cases h0
+
 -- ------------------------------------------------------------------ the statement: WITH s0 AS (frame) SELECT items FROM s0
 
 theorem eval_cteStmt (db : Db) (frameQ : Query) (body : SetExpr) :
@@ -594,6 +639,30 @@ theorem eval_cteStmt (db : Db) (frameQ : Query) (body : SetExpr) :
 def sLvl3 (km : KindMap) (e : EdgeRec) (a b : NodeRec) : Level := [⟨"s0", ["e0", "n0", "n1"], [edgeVal km e, nodeVal km a, nodeVal km b]⟩]
 
 def propVal (props : List (String × Json)) (k : String) : Val := match Json.lookup k props with | some j => .jsonb j | none => .null
+
+/-- the statement with an outer LIMIT literal -/
+theorem eval_cteStmt_lim (db : Db) (frameQ : Query) (body : SetExpr) (k : Option Nat) :
+    Sql.eval db (.query (.mk false [.mk "s0" none none frameQ] body [] none (k.map S1.natLitS))) [] = (do
+      let t0 ← evalQuery (E0 db) frameQ
+      let r ← evalSetExpr (E1 db t0) body
+      pure (⟨r.1, (cutN none k r.2).map (·.1)⟩ : Table)) := by
+  rw [Sql.eval, evalQuery, evalCtes]
+  · simp only [evalCtes, ebind_ok, epure_ok, bind_assoc, evalOrderKeys, evalOpt]
+    congr 1
+    funext t0
+    congr 1
+    funext r
+    rw [mapE_pure (fun row => (([] : List (Val × Bool)), row)) r.2]
+    simp only [ebind_ok, orderRows_nokeys]
+    have h1 : evalOpt { db := db, params := [], ctes := [("s0", t0)], levels := [], group := none } (k.map S1.natLitS) =
+        .ok (k.map (fun k => Val.int (Int.ofNat k))) := evalOpt_nat _ k
+    rw [h1]
+    simp only [ebind_ok]
+    have := cutRows_nat (α := List Val × Option EEnv) none k r.2
+    simp only [Option.map_none] at this
+    rw [this]
+    rfl
+  · intro _ _ _ _ _ hh _; cases hh
 
 /-- the SQL value of a RETURN item on the matched (edge, a, b) -/
 def itemVal2 (km : KindMap) (e : EdgeRec) (a b : NodeRec) : S2.Item → Val
